@@ -346,7 +346,9 @@ def headers_of(tree, units, acc=None):
 
 
 # ---- random generation --------------------------------------------------------------------------
-MAG_INTS = [2, 3, 5, 7, 10, 12, 60, 100, 254, 1000, 5280, 7919, 2 ** 10, 10 ** 6, 2 ** 31 - 1, 2 ** 32 - 5, 65537, 9, 16, 27, 1024, 360, 9192631770]
+MAG_INTS = [2, 3, 5, 7, 10, 12, 60, 100, 254, 1000, 5280, 7919, 2 ** 10, 10 ** 6, 2 ** 31 - 1, 2 ** 32 - 5, 65537, 9, 16, 27, 1024, 360, 9192631770,
+            # single literals that need more than 32 bits while the library factors them (powers of ten beyond 10^9 included)
+            10 ** 10, 7 * 10 ** 11, 10 ** 15, 2 ** 40, 10 ** 18, 2 ** 63]
 
 
 def gen_mag(rnd, depth=0):
